@@ -133,7 +133,7 @@ PROPS["C12"] = {
         {"pkg": RX, "func": "VerifH_C12_accounting3", "replay_tries": 40, "covers": ["delivered", "feedback", "finish", "feedback-unknown", "insert-blocks-when-full"]},
         {"pkg": RX, "func": "VerifH_C12_freeze3", "replay_tries": 40, "covers": ["insert-after-freeze", "drained-after-freeze"]},
         {"pkg": RX, "func": "VerifH_C12_stop", "replay_tries": 40, "covers": ["stopped"]},
-        {"pkg": RX, "func": "VerifH_C12_concurrent_finish", "replay_tries": 40, "replay_repeat": 20000, "covers": ["two-finishes"]},
+        {"pkg": RX, "func": "VerifH_C12_concurrent_finish", "replay_tries": 10, "replay_repeat": 200000, "covers": ["two-finishes"]},
         {"pkg": RX, "func": "VerifH_C12_waiting_insert", "replay_tries": 10, "covers": ["waiting-insert-frozen", "waiting-insert-admitted"]},
         {"pkg": RX, "func": "VerifH_C12_accounting4", "replay_tries": 40, "thorough_only": True, "opts": {"max_wall_s": 1500}, "covers": ["delivered", "feedback", "finish"]},
     ],
@@ -213,7 +213,7 @@ PROPS["C19"] = {
     "level": "model_checking",
     "explanation": "the extractors' own link-construction code (hasFileExtension, findURLs/GetURLsFromJSON split, M3U8 playlist walk, s3Legacy, s3V2) is executed from SSA on documents whose shape is chosen "
                    "symbolically (JSON value trees, playlists with nil slots, bucket pages with symbolic object sizes/truncation) and compared with reference rules written from the statement; net/url is executed from its real SSA.",
-    "bounds": "URL texts <=6 bytes over {a . / ? #}; JSON trees depth<=2 (quick) / 3 (thorough; the outermost container of a depth-3 tree holds at most one value - full width 2 at depth 3 did not finish in 25 min and is not claimed), width<=2, 5 leaf kinds incl. JSON-in-string; XML documents of <=2 top-level nodes, each one of 6 leaf shapes (attribute, text, CDATA, escaped entity, two attributes, no URL) or a container of <=2 leaves; playlists <=3 segments / <=2 variants x <=2 alternatives; S3 pages <=2 objects (3 key shapes, symbolic sizes), <=2 common prefixes, truncation flag and token symbolic",
+    "bounds": "URL texts <=6 bytes over {a . / ? #}; JSON trees depth<=2 (quick) / 3 (thorough; the outermost container of a depth-3 tree holds at most one value - full width 2 at depth 3 did not finish in 25 min and is not claimed), width<=2, 5 leaf kinds incl. JSON-in-string; XML documents of <=2 top-level nodes, each one of 8 leaf shapes (attribute, text, CDATA, escaped entity, two attributes, no URL, text after a child element, text after a self-closing element) or a container of <=2 leaves; playlists <=3 segments / <=2 variants x <=2 alternatives; S3 pages <=2 objects (3 key shapes, symbolic sizes), <=2 common prefixes, truncation flag and token symbolic",
     "outside": "JSON/M3U8 tokenisation (encoding/json and grafov/m3u8 are modelled as delivering the value the harness built; natively the replay goes through the real decoders; encoding/xml's tokenizer itself runs from SSA); URLs found in XML text by the xurls regular expression (text nodes that do not start with http, e.g. indented ones); multi-page bucket walks",
     "assumptions": COMMON_ASSUME + ["strings.Split/Trim/... are replaced by plain-Go models validated against the real functions on all strings <=5 over a 4-letter alphabet (verifmodel self-test)",
                                     "json.Decoder.Decode / json.Unmarshal / m3u8.DecodeFrom return the harness-built value (contract: total, no panic)"],
@@ -447,7 +447,7 @@ PROPS["C02"] = {
     "stub_pkgs": DEFAULT_STUBS + [STATS],
     "harnesses": [
         {"pkg": "internal/pkg/archiver/discard", "func": "VerifH_C02_discard_policy", "covers": ["discarded", "kept", "cloudflare-challenge"]},
-        {"pkg": AR, "func": "VerifH_C02_process_body", "opts": {"max_steps": 50000000, "unwind": 70000}, "covers": ["body-ok", "body-error", "spooled", "handed-to-postprocessing"]},
+        {"pkg": AR, "func": "VerifH_C02_process_body", "opts": {"max_steps": 50000000, "unwind": 70000}, "covers": ["body-ok", "body-error", "spooled", "handed-to-postprocessing", "end-with-data"]},
         {"pkg": AR, "func": "VerifH_C02_archive", "opts": {"max_steps": 50000000, "unwind": 70000}, "covers": ["retries-exhausted", "archived", "sync-write-awaited"]},
         {"pkg": AR, "func": "VerifH_C02_archive_assets", "replay_tries": 3, "opts": {"max_steps": 50000000, "unwind": 70000}, "covers": ["sync-write-awaited", "two-assets"]},
     ],
@@ -538,3 +538,16 @@ for _h in PROPS["C03"]["harnesses"]:
 for _h in PROPS["C03"]["harnesses"]:
     if _h["func"] in ("VerifH_C03_archiver_workers", "VerifH_C03_postprocessor_stop", "VerifH_C03_preprocessor_stop") and "work-arrives-while-paused" not in _h["covers"]:
         _h["covers"] = _h["covers"] + ["work-arrives-while-paused"]
+
+
+# what happens to the extracted lists (every asset a child, every anchor an outlink) is part of C07 too
+PROPS["C07"]["harnesses"].append({"pkg": PP, "func": "VerifH_C06_postprocess", "models": POSTPROC_MODELS, "opts": {"map_order_all": False},
+                                  "covers": ["asset-expected", "outlink-expected"]})
+PROPS["C07"]["bounds"] += "; plus the C06 post-processing harness (2 assets, one of them under the page's own URL, <=2 anchors)"
+
+
+# the retry bound of archive() for small and large budgets belongs to C06 (and is run by C02 as well)
+_rb = {"pkg": AR, "func": "VerifH_C06_retry_bound", "models": ARCH_MODELS, "replay_timeout_s": 120, "opts": {"max_steps": 50000000, "unwind": 70000},
+       "covers": ["retries-exhausted", "large-retry-budget"]}
+PROPS["C06"]["harnesses"].append(dict(_rb))
+PROPS["C06"]["bounds"] += "; archive() retry loop: max-retry in {0,1,3,6,7} with every attempt failing as a transport error, 503 or 429"
